@@ -64,6 +64,7 @@ pub struct Out {
     pub samples: Vec<Json>,
     pub caps: Vec<String>,
     pub notes: Vec<String>,
+    pub sample_counts: BTreeMap<String, u64>,
 }
 
 impl Out {
@@ -92,10 +93,15 @@ impl Out {
             });
         }
     }
-    pub fn sample(&mut self, leg: &str, case: impl Into<String>, note: impl Into<String>) {
-        if self.samples.iter().filter(|s| s["leg"] == leg).count() < 3 {
+    /// Record up to three written-out cases per leg (the closure is only called when needed).
+    pub fn sample(&mut self, leg: &str, f: impl FnOnce() -> (String, String)) {
+        let n = self.sample_counts.entry(leg.to_string()).or_insert(0);
+        // take the 1st, 100th and 10000th case of a leg so that samples are not all trivial
+        *n += 1;
+        if *n == 1 || *n == 100 || *n == 10_000 {
+            let (case, note) = f();
             self.samples
-                .push(json!({"leg": leg, "case": case.into(), "observed": note.into()}));
+                .push(json!({"leg": leg, "case": case, "observed": note}));
         }
     }
     pub fn cap(&mut self, s: impl Into<String>) {
